@@ -254,6 +254,27 @@ type hCatOut struct {
 
 type hPlain struct{ X hP0 } // no marker: an ordinary type-only value
 
+// the marker only reaches hNested through an embedded marker struct: hNested itself is
+// NOT a marker struct (an ordinary type-only value)
+type hCommon struct {
+	Struct
+	A hP0
+}
+
+type hNested struct {
+	hCommon
+	B hP1
+}
+
+// an embedded exported non-marker type is an ordinary named field, called after its type
+type HBase struct{ N int }
+
+type hWithEmbedded struct {
+	Struct
+	HBase
+	A hP0
+}
+
 func HarnessC14Static(kind int) {
 	hOrderSites(0)
 	vnNote(fmt.Sprintf("static catalogue entry %d", kind))
@@ -297,6 +318,35 @@ func HarnessC14Static(kind int) {
 		vnAssert(err != nil, "C14.nil-rejected")
 		_, err = NewFunc(func() (hCatOut, hP0) { return hCatOut{}, hP0{} })
 		vnAssert(err != nil, "C14.mixed-results-rejected")
+		_, err = NewFunc(func(x hP0, in *hCatIn) {})
+		vnAssert(err != nil, "C14.mixed-with-pointer-struct-rejected")
+		_, err = NewFunc(func(in *hCatIn, in2 *hCatIn) {})
+		vnAssert(err != nil, "C14.two-pointer-structs-rejected")
+		_, err = NewFunc(func() (hP0, *hCatOut, error) { return hP0{}, nil, nil })
+		vnAssert(err != nil, "C14.mixed-pointer-struct-results-rejected")
+	case 5:
+		f, err := NewFunc(func(p hNested, q *hNested) hNested { return p })
+		vnAssert(err == nil, "C14.static-accepted")
+		if err == nil {
+			vs := f.Input().Values()
+			vnAssert(len(vs) == 2, "C14.nested-marker-count")
+			if len(vs) == 2 {
+				vnAssert(vs[0].Name == "" && vs[0].Type == reflect.TypeOf(hNested{}), "C14.promoted-marker-does-not-make-a-marker-struct")
+				vnAssert(vs[1].Name == "" && vs[1].Type == reflect.TypeOf(&hNested{}), "C14.promoted-marker-pointer-is-type-only")
+			}
+			os := f.Output().Values()
+			vnAssert(len(os) == 1 && os[0].Name == "" && os[0].Type == reflect.TypeOf(hNested{}), "C14.promoted-marker-result-is-type-only")
+		}
+		g, err := NewFunc(func(in hWithEmbedded) {})
+		vnAssert(err == nil, "C14.static-accepted")
+		if err == nil {
+			vs := g.Input().Values()
+			vnAssert(len(vs) == 2, "C14.embedded-field-count")
+			if len(vs) == 2 {
+				vnAssert(vs[0].Name == "hbase" && vs[0].Type == reflect.TypeOf(HBase{}), "C14.embedded-exported-field-is-a-named-value")
+				vnAssert(vs[1].Name == "a" && vs[1].Type == hType(hTP0), "C14.field-after-embedded")
+			}
+		}
 	case 4:
 		f, err := NewFunc(func() error { return nil })
 		vnAssert(err == nil, "C14.static-accepted")
